@@ -136,3 +136,18 @@ Definition candidate_units (tier : Z) : list (string * ty) :=
 
 Definition supported_units (tier : Z) : list (string * ty) :=
   filter (fun u => sup_root (snd u)) (candidate_units tier).
+
+(* the units the emitter streams run on: quick = every third supported unit of the
+   representative set plus the multi-field structs; thorough = all supported units *)
+Fixpoint every (k : nat) (i : nat) (l : list (string * ty)) : list (string * ty) :=
+  match l with
+  | [] => []
+  | x :: r => if Nat.eqb (Nat.modulo i k) 0 then x :: every k (S i) r else every k (S i) r
+  end.
+Definition emit_units (tier : Z) : list (string * ty) :=
+  if Z.eqb tier 0 then
+    every 3 0 (filter (fun u => sup_root (snd u)) (units_of_shapes 0 rep_shapes)) ++
+    filter (fun u => sup_root (snd u))
+      ((fix go (i : nat) (bs : list ty) : list (string * ty) :=
+          match bs with [] => [] | b :: r => (String.append "M" (nat_to_string i), b) :: go (S i) r end) 0 multi)
+  else supported_units 1.
